@@ -237,7 +237,7 @@ pub fn gen_case(t: &mut Tape, leading_unsafe_ok: bool) -> Case {
             }
             let mut attrs = gen::gen_attrs(t, 2);
             if t.chance(1, 4) {
-                attrs.insert(t.choose(attrs.len() + 1), "#[async_trait::async_trait]".into());
+                attrs.insert(t.choose(attrs.len() + 1), gen::async_trait_attr(t));
             }
             if t.chance(1, 4) {
                 let at = t.choose(attrs.len() + 1);
